@@ -335,11 +335,17 @@ theorem C19_subparse_wraps_marked_constructs (st : Stmts) (V : Val) (fuel : Nat)
       (ends.contains name = true → subparse st (fuel + 1) ends (.tag v name arg :: is) = .ok ([], some name, is)) := by
   refine ⟨?_, ?_, ?_, ?_, ?_⟩
   · simp only [subparse, endsStar_marker, autoindentPrefix_marker, if_true]
+    cases subparse st fuel ends is with
+    | error x => rfl
+    | ok r => obtain ⟨ns, e', r⟩ := r; rfl
   · simp [renderNode]
   · simp [wrapStmt, endsStar_marker, autoindentPrefix_marker, renderNode, renderNodes]
   · intro hv
     refine ⟨?_, ?_⟩
     · simp only [subparse, hv, Bool.false_eq_true, if_false]
+      cases subparse st fuel ends is with
+      | error x => rfl
+      | ok r => obtain ⟨ns, e', r⟩ := r; rfl
     · simp [wrapStmt, hv]
   · intro hn
     simp only [subparse, hn, if_true]
@@ -380,6 +386,40 @@ theorem C19_lineprefix_empty_output (p x : Str) :
     lineprefix p [] = [] ∧ ((∀ l ∈ splitlines x, l = []) → lineprefix p x = lineprefix [] x) :=
   ⟨by simp [lineprefix, splitlines, linesT, joinNl], lineprefix_all_empty p x⟩
 
+/-! ## Round 2: glue around the extensions and the environment (`extensions.py`, `environment.py`) -/
+
+/-- `{% assert e %}` / `{% assert e, m %}`: a falsy `e` raises with the given message — or the default one when none is
+given — and with the line of the tag and the name of the template that contains it; a truthy `e` renders nothing. -/
+theorem C19_assert_reports_message_line_and_template (truthy : Bool) (given : Option Str) (lineno : Nat) (name : Str) :
+    (truthy = false → doAssertAt truthy given lineno name =
+        .error ⟨given.getD "Template assertion failed.".toList, lineno, name⟩) ∧
+      (truthy = true → doAssertAt truthy given lineno name = .ok []) := by
+  cases truthy <;> simp [doAssertAt, assertMessage]
+
+/-- The argument of `ifuses` / `ifnuses` / `elifuses` / `elifnuses` is an expression: `None` raises the template
+assertion error and a non-string raises `TypeError` for BOTH polarities (the negation is applied to the result of
+`_use_query_common`, after it raised); a string is looked up in the target language's `uses_queries` namespace and
+the clause is `negate xor query()`, an unknown name is `UndefinedError`. -/
+theorem C19_use_query_argument (q : Str → Option Bool) (negate : Bool) (s : Str) :
+    useQueryV q negate .none_ = .error .unknownQueryName ∧ useQueryV q negate .other = .error .typeError ∧
+      (q s = none → useQueryV q negate (.str s) = .error (.undefinedQuery s)) ∧
+      (∀ b, q s = some b → useQueryV q negate (.str s) = .ok (negate != b)) := by
+  refine ⟨rfl, rfl, ?_, ?_⟩
+  · intro h; simp [useQueryV, useQuery, h]
+  · intro b h; cases negate <;> cases b <;> simp [useQueryV, useQuery, h]
+
+/-- Every environment `CodeGenEnvironmentBuilder` can create (any `set_trim_blocks` / `set_lstrip_blocks`) has the
+default delimiters, no line statement / line comment prefix and `keep_trailing_newline`: the lexer of every Nunavut
+environment is `lexF` at an `Env` that satisfies the hypotheses of the marker theorems. -/
+theorem C19_builder_environments_meet_the_lexer_model (b : BuilderState) :
+    let s := builderSettings b
+    (s.blockStart, s.blockEnd, s.variableStart, s.variableEnd, s.commentStart, s.commentEnd) =
+        ("{%".toList, "%}".toList, "{{".toList, "}}".toList, "{#".toList, "#}".toList) ∧
+      s.keepTrailingNewline = true ∧ s.newlineSequence = "\n".toList ∧
+      (⟨true, false, s.lstripBlocks, s.trimBlocks, s.lineStatementPrefix, s.lineCommentPrefix⟩ : Env).noLinePrefixes ∧
+      s.trimBlocks = b.trim ∧ s.lstripBlocks = b.lstrip := by
+  simp [builderSettings, Env.noLinePrefixes]
+
 /-! ## Non-vacuity and negation witnesses -/
 
 -- T1 is not vacuous and its hypothesis is needed: with a marker the scans differ.
@@ -418,49 +458,49 @@ example : parseUses true "a".toList "A".toList [⟨.elifuses, "b".toList, "B".to
 def envN (star lstrip trim : Bool) : Env := ⟨star, false, lstrip, trim, none, none⟩
 example : lexF (envN true false false) asciiTables 20 none "a\n  {{* x }}b".toList =
     [.tok .data "a\n".toList, .tok .variableBegin "  {{*".toList, .tok .whitespace " ".toList, .tok .name "x".toList,
-     .tok .whitespace " ".toList, .tok .variableEnd "}}".toList, .tok .data "b".toList] := by decide
+     .tok .whitespace " ".toList, .tok .variableEnd "}}".toList, .tok .data "b".toList] := by decide +kernel
 example : lexF (envN true false false) asciiTables 20 none "a\n  {{ x }}b".toList =
     [.tok .data "a\n  ".toList, .tok .variableBegin "{{".toList, .tok .whitespace " ".toList, .tok .name "x".toList,
-     .tok .whitespace " ".toList, .tok .variableEnd "}}".toList, .tok .data "b".toList] := by decide
+     .tok .whitespace " ".toList, .tok .variableEnd "}}".toList, .tok .data "b".toList] := by decide +kernel
 -- lstrip_blocks strips the blanks of a plain block at the start of a line; the marker captures them either way
 example : lexF (envN true true true) asciiTables 20 none "  {% x %}\nb".toList =
     [.tok .blockBegin "  {%".toList, .tok .whitespace " ".toList, .tok .name "x".toList,
-     .tok .whitespace " ".toList, .tok .blockEnd "%}\n".toList, .tok .data "b".toList] := by decide
+     .tok .whitespace " ".toList, .tok .blockEnd "%}\n".toList, .tok .data "b".toList] := by decide +kernel
 -- the upstream lexer reads `{{*` as `{{` followed by the operator `*`; braces inside the tag are balanced
 example : lexF (envN false false false) asciiTables 20 none "  {{* {1:2}}}".toList =
     [.tok .data "  ".toList, .tok .variableBegin "{{".toList, .tok .operator "*".toList, .tok .whitespace " ".toList,
      .tok .operator "{".toList, .tok .integer "1".toList, .tok .operator ":".toList, .tok .integer "2".toList,
-     .tok .operator "}".toList, .tok .variableEnd "}}".toList] := by decide
+     .tok .operator "}".toList, .tok .variableEnd "}}".toList] := by decide +kernel
 -- `{%* raw %}`: the begin token is a raw begin, `wrap` drops it — the parser never sees a marker (known finding)
 example : tokenize (envN true false false) asciiTables true "\n".toList "  {%* raw %}x{% endraw %}".toList =
-    [.tok 1 .data "x".toList] := by decide
+    [.tok 1 .data "x".toList] := by decide +kernel
 -- … whereas for `{%* if %}` the parser-visible begin token ends in `*` (and only that one is wrapped)
 example : (tokenize (envN true false false) asciiTables true "\n".toList "  {%* if y %}".toList).map parserWraps =
-    [true, false, false, false] := by decide
+    [true, false, false, false] := by decide +kernel
 -- T1 needs its hypothesis, also for the whole lexer
 example : lexF (envN true false false) asciiTables 20 none " {%* x %}".toList ≠
-    lexF (envN true false false).upstream asciiTables 20 none " {%* x %}".toList := by decide
+    lexF (envN true false false).upstream asciiTables 20 none " {%* x %}".toList := by decide +kernel
 -- line statements / line comments (not configured by Nunavut, covered by T1 all the same)
 example : lexF ⟨true, false, false, false, some "%%".toList, some "##".toList⟩ asciiTables 20 none "%% if x\na ## c".toList =
     [.tok .lstmtBegin "%%".toList, .tok .whitespace " ".toList, .tok .name "if".toList, .tok .whitespace " ".toList,
      .tok .name "x".toList, .tok .lstmtEnd "\n".toList, .tok .data "a".toList, .tok .lcmtBegin " ##".toList,
-     .tok .lcmt " c".toList, .tok .lcmtEnd []] := by decide
+     .tok .lcmt " c".toList, .tok .lcmtEnd []] := by decide +kernel
 
 -- Round 2, subparse + lineprefix end to end on the model (lexer → items → subparse → render)
 def valX : Val := ⟨fun e => if e = "v".toList then "a\nb".toList else "?".toList, fun _ => true, fun _ => 2, fun _ _ => []⟩
 example : renderTemplate (envN true false false) asciiTables coreStmts valX true "\n".toList "x:\n  {{* v }}!".toList =
-    some "x:\n  a\n  b!".toList := by decide
+    some "x:\n  a\n  b!".toList := by decide +kernel
 -- nested: outer block at 2 blanks, inner expression at 1 blank: inner lines carry 3 blanks
 example : renderTemplate (envN true false false) asciiTables coreStmts valX true "\n".toList
-    "  {%* if c %}\nk\n {{* v }}\n{% endif %}".toList = some "\n  k\n   a\n   b".toList := by decide
+    "  {%* if c %}\nk\n {{* v }}\n{% endif %}".toList = some "\n  k\n   a\n   b".toList := by decide +kernel
 -- a `*` on the end tag is ignored; without markers nothing is wrapped
 example : renderTemplate (envN true false false) asciiTables coreStmts valX true "\n".toList
-    "{% if c %}k{%* endif %}|".toList = some "k|".toList := by decide
+    "{% if c %}k{%* endif %}|".toList = some "k|".toList := by decide +kernel
 -- the two composition laws at work, and why the exact laws need their side conditions
-example : lineprefix " ".toList (lineprefix "\t".toList "a\n\nb".toList) = " \ta\n\n \tb".toList := by decide
+example : lineprefix " ".toList (lineprefix "\t".toList "a\n\nb".toList) = " \ta\n\n \tb".toList := by decide +kernel
 example : lineprefix " ".toList (lineprefix "\t".toList "a\n\n".toList) = " \ta".toList ∧
-    lineprefix " \t".toList "a\n\n".toList = " \ta\n".toList := by decide
-example : lineprefix "  ".toList "a\n".toList = lineprefix "  ".toList "a".toList := by decide
-example : lineprefix "  ".toList "\n\n".toList = "\n".toList := by decide
+    lineprefix " \t".toList "a\n\n".toList = " \ta\n".toList := by decide +kernel
+example : lineprefix "  ".toList "a\n".toList = lineprefix "  ".toList "a".toList := by decide +kernel
+example : lineprefix "  ".toList "\n\n".toList = "\n".toList := by decide +kernel
 
 end NunavutVerif.Lexer
